@@ -15,4 +15,18 @@ OBLIGATIONS = [
           "bounds": "all scalars, all embedded public keys; well-formed container produced by sm2_private_key_to_der",
           "stubs": ["points as affine stand-ins ([k]G := (k, ~k))", "diagnostic-channel monitor (models/leak_monitor.c)"]}, **MON),
 ]
+OBLIGATIONS += [
+    dict({"id": "C19.tls13_records_quiet", "harness": "harness/C19/records.c", "entry": "h_tls13_records_quiet", "units": ["tls13.c", "tls_trace.c"],
+          "remove": {"tls_trace.c": []}, "unwind": 70, "timeout": 600,
+          "title": "tls13_gcm_decrypt / tls13_gcm_encrypt: no data dump on success or on any failure path (AEAD failure, bad inner type, short input)",
+          "bounds": "40-byte protected record, 20-byte payload; AEAD outcome arbitrary", "stubs": ["SM4-GCM: arbitrary outcome", "diagnostic monitor"]}, **MON),
+    dict({"id": "C19.tls_cbc_records_quiet", "harness": "harness/C19/records.c", "entry": "h_tls_cbc_records_quiet", "units": ["tls.c"],
+          "remove": {"tls.c": ["tls_record_recv", "tls_record_send"]}, "shims": {"tls.c": ["ctxcopy_shim.h"]}, "unwind": 260, "timeout": 600,
+          "title": "tls_cbc_decrypt / tls_cbc_encrypt: no data dump on success or failure (padding / MAC / entropy failures)",
+          "bounds": "80-byte protected body, 20-byte payload", "stubs": ["CBC / HMAC / entropy: arbitrary outcome", "diagnostic monitor"]}, **MON),
+    dict({"id": "C19.sm2_decrypt_quiet", "harness": "harness/C19/sm2dec.c", "entry": "h_sm2_decrypt_quiet", "units": ["sm2_enc.c"],
+          "remove": {"sm2_enc.c": ["sm2_ciphertext_print", "sm2_encrypt_pre_compute"]}, "unwind": 70, "timeout": 600,
+          "title": "sm2_do_decrypt: no data dump on any path", "bounds": "3-byte ciphertext body, arbitrary C1/C3, arbitrary point validator outcome",
+          "stubs": ["point ops / SM3: arbitrary", "diagnostic monitor"]}, **MON),
+]
 NOTE = "C19: secrets on diagnostic channels."
